@@ -129,8 +129,13 @@ pub fn run_plan(plan: Vec<PlanItem>, opts: &RunOpts) -> J {
                 keep_events: true,
             })
         };
-        let a = mk();
-        let b = mk();
+        let (a, b) = match std::panic::catch_unwind(std::panic::AssertUnwindSafe(|| (mk(), mk()))) {
+            Ok(x) => x,
+            Err(_) => {
+                agg.lock().inconclusive.push(format!("determinism self-check of family {} panicked in the harness", item.family));
+                continue;
+            }
+        };
         let (la, lb) = (render_log(&a), render_log(&b));
         if la != lb {
             let first = la.iter().zip(lb.iter()).position(|(x, y)| x != y).unwrap_or(la.len().min(lb.len()));
